@@ -11,6 +11,7 @@ def s1(test, qchecks, tchecks, qshards=4, tshards=16, timeout_q=240, timeout_t=1
 
 TESTS = {
     "C01": [s1("TestC01_S1Conformance", 20000, 250000)],
+    "C02": [s1("TestC02_Linearizable", 150, 3000, timeout_t=2400)],
     "C03": [s1("TestC03_S1Visibility", 20000, 250000)],
     "C04": [s1("TestC04_S1Bound", 15000, 200000)],
     "C05": [s1("TestC05_S1Bookkeeping", 15000, 200000)],
